@@ -264,6 +264,9 @@ func subtleSection(x *h.X) {
 			continue
 		}
 		d := &driver{t: t, p: p, tw: twin, lens: ref.GuardLens, spares: ref.GuardSpares, adj: []int{adj}}
+		if x.Thorough() {
+			d.lens, d.spares = thoroughLens, thoroughSpares
+		}
 		if e.custom != nil {
 			e.custom(d, obj, twinObj)
 		} else {
